@@ -79,6 +79,8 @@ func (in *Interp) globalCell(g *ssa.Global) *Cell {
 					in.store(c, in.load(in.globalCell(fg)))
 				}
 			}
+		case path == "time" && (g.Name() == "Local" || g.Name() == "UTC" || g.Name() == "localLoc" || g.Name() == "utcLoc"):
+			// only carried around inside time.Time; formatting is never interpreted
 		case in.zeroValueGlobalOK(elem):
 		default:
 			panic(abortf("UNMODELLED", "read of global %s.%s whose package init is not interpreted", path, g.Name()))
